@@ -1033,13 +1033,22 @@ func (c *Conn) handleBdat(arg string) {
 				}
 			}()
 
+			session := c.Session()
+			if session == nil {
+				// The connection was closed before the delivery could
+				// start: there is nobody to deliver to any more.
+				dataResult <- ErrDataReset
+				r.CloseWithError(ErrDataReset)
+				return
+			}
+
 			var err error
 			if !c.server.LMTP {
-				err = c.Session().Data(r)
+				err = session.Data(r)
 			} else {
-				lmtpSession, ok := c.Session().(LMTPSession)
+				lmtpSession, ok := session.(LMTPSession)
 				if !ok {
-					err = c.Session().Data(r)
+					err = session.Data(r)
 					for _, rcpt := range recipients {
 						bdatStatus.SetStatus(rcpt, err)
 					}
